@@ -1045,8 +1045,44 @@ fn c19_owned(ctx: &mut Ctx, s: &str, kind: u64) {
     }
 }
 
+/// The octets of the pct view of a component object returned by an accessor, compared with the
+/// percent-decoding of the component the RFC split defines.
+macro_rules! c19_obj {
+    ($ctx:expr, $name:literal, $obj:expr, $model_text:expr, $whole:expr) => {{
+        let want = model::pct_decode($model_text);
+        let wf = std::str::from_utf8(&want).is_ok();
+        $ctx.call("embedded.bytes");
+        match crate::ctx::guard(|| { let o = $obj; (o.as_bytes().to_vec(), o.as_pct_str().bytes().take($whole.len() + 1).collect::<Vec<u8>>(), (&**o).bytes().take($whole.len() + 1).collect::<Vec<u8>>()) }) {
+            Ok((text, got, got2)) => {
+                if got != want || got2 != want {
+                    $ctx.fail("C19.bytes", { let mut f = c19_feats($name, "embedded.bytes", wf); f.push(("via", "embedded".into())); f }, format!("{} of {}: the accessor returns {} whose pct view has octets {:02x?}, but the component is {} with octets {:02x?}", $name, show($whole), show(&text), got, show($model_text), want));
+                }
+            }
+            Err(m) => $ctx.fail("C19.total", { let mut f = c19_feats($name, "embedded.bytes", wf); f.push(("via", "embedded".into())); f }, format!("{} of {}: accessor or bytes() panicked: {}", $name, show($whole), m)),
+        }
+    }};
+}
+
 /// Components extracted from a full reference.
 pub fn c19_embedded(ctx: &mut Ctx, s: &str) {
+    if let Ok(r0) = RiRef::new(s) {
+        let sp = model::split(b(s));
+        if let (Some(a), Some(ma)) = (r0.authority(), sp.authority) {
+            let ms = model::split_authority(ma);
+            if let (Some(u), Some(mu)) = (crate::ctx::guard(|| a.user_info()).ok().flatten(), ms.user_info) { c19_obj!(ctx, "UserInfo", u, mu, b(s)); }
+            if let Ok(h) = crate::ctx::guard(|| a.host()) { c19_obj!(ctx, "Host", h, ms.host, b(s)); }
+        }
+        let (_abs, msegs) = model::segments(sp.path);
+        for (i, sg) in r0.path().segments().enumerate().take(8) {
+            if let Some(ms) = msegs.get(i) { c19_obj!(ctx, "Segment", sg, ms, b(s)); }
+        }
+        if let (Some(q), Some(mq)) = (r0.query(), sp.query) { c19_obj!(ctx, "Query", q, mq, b(s)); }
+        if let (Some(fr), Some(mf)) = (r0.fragment(), sp.fragment) { c19_obj!(ctx, "Fragment", fr, mf, b(s)); }
+    }
+    c19_embedded_views(ctx, s);
+}
+
+fn c19_embedded_views(ctx: &mut Ctx, s: &str) {
     let Ok(r) = RiRef::new(s) else { return };
     if let Some(a) = r.authority() {
         if let Some(u) = a.user_info() { let t = u.as_str().to_string(); c19_typed!(ctx, "UserInfo", UserInfo, &t, "via:embedded"); }
